@@ -6,7 +6,8 @@ import time
 
 from .. import ioarch, iocheck
 
-REQUIRED = ["table_vouched", "flow_facts", "audit_passed_only_vouched", "load_only_vouched", "untrusted_no_events", "C01_current"]
+REQUIRED = ["table_vouched", "table_ref_kinds_inert", "flow_facts", "audit_passed_only_vouched", "load_only_vouched", "load_only_vouched_refs",
+            "load_archive_only_vouched", "C01_archive_current", "untrusted_no_events", "C01_current"]
 
 
 def run(ctx):
